@@ -218,14 +218,38 @@ Fixpoint move_l (l : forest) (d : forest) : forest * forest * nat :=
     (match o with Some t'' => t'' :: r' | None => r' end, d2', m1 + m2)
   end.
 
-(* ---- top-down rewriting of whole trees (swap, switch) ---- *)
-Fixpoint rewrite_t (f : tree -> option tree) (t : tree) : tree :=
-  match f t with
-  | Some t' => t'
-  | None => match t with T i n v k => T i n v (map (rewrite_t f) k) end
+(* ---- cut / graft of child lists, exchange of two nodes (swap, switch) ---- *)
+(* take the children of node [x] away: the node (with them) and the state in which
+   it is childless *)
+Definition cut (x : nat) (st : state) : option (tree * state) :=
+  match focus x st with
+  | Some (c, l1, tx, l2) => Some (tx, plug c (l1 ++ T (tid tx) (tname tx) (tval tx) [] :: l2))
+  | None => None
   end.
-Definition rewrite_st (f : tree -> option tree) (st : state) : state :=
-  map (map (rewrite_t f)) st.
+
+(* make [k] the children of node [x] *)
+Definition graft (x : nat) (k : forest) (st : state) : option state :=
+  match focus x st with
+  | Some (c, l1, tx, l2) => Some (plug c (l1 ++ T (tid tx) (tname tx) (tval tx) k :: l2))
+  | None => None
+  end.
+
+(* the ancestors of a node, innermost first *)
+Definition ancs (x : nat) (st : state) : list nat :=
+  match focus x st with
+  | Some (c, _, _, _) => map fi (fst c)
+  | None => []
+  end.
+
+(* the nodes [a] and [b] (identity, name, value) change places; children stay where they are *)
+Fixpoint exch_t (a na va b nb vb : nat) (t : tree) : tree :=
+  match t with
+  | T i n v k =>
+    let k' := map (exch_t a na va b nb vb) k in
+    if i =? a then T b nb vb k' else if i =? b then T a na va k' else T i n v k'
+  end.
+Definition exch_st (a na va b nb vb : nat) (st : state) : state :=
+  map (map (exch_t a na va b nb vb)) st.
 
 (* ---- traversal orders ---- *)
 Fixpoint strav (o : order) (fl : nat) (t : tree) : list nat :=
@@ -361,23 +385,49 @@ Definition sstep (s : sstate) (o : op) : sstate * out :=
     | None => if slive s x then (s, OutP (Some x)) else (s, OutX)
     end
   | OSwap a b =>
-    match focus a (lists s), focus b (lists s) with
-    | Some (_, _, ta, _), Some (_, _, tb, _) =>
-      if (mem a (ids_t tb) || mem b (ids_t ta)) && negb (a =? b) then (s, OutX)
-      else (with_lists s (rewrite_st (fun t =>
-              if tid t =? a then Some (T a (tname ta) (tval ta) (tkids tb))
-              else if tid t =? b then Some (T b (tname tb) (tval tb) (tkids ta))
-              else None) (lists s)), OutP None)
-    | _, _ => (s, OutX)
-    end
+    (* exchange the child lists: cut both, graft them crosswise *)
+    if (mem a (b :: ancs b (lists s)) || mem b (a :: ancs a (lists s))) && negb (a =? b) then (s, OutX)
+    else
+      match cut a (lists s) with
+      | Some (ta, s1) =>
+        match cut b s1 with
+        | Some (tb, s2) =>
+          match graft a (tkids tb) s2 with
+          | Some s3 =>
+            match graft b (tkids ta) s3 with
+            | Some s4 => (with_lists s s4, OutP None)
+            | None => (s, OutX)
+            end
+          | None => (s, OutX)
+          end
+        | None => (s, OutX)
+        end
+      | None => (s, OutX)
+      end
   | OSwitch a b =>
-    match focus a (lists s), focus b (lists s) with
-    | Some (_, _, ta, _), Some (_, _, tb, _) =>
-      if (mem a (ids_t tb) || mem b (ids_t ta)) && negb (a =? b) then (s, OutX)
-      else (with_lists s (rewrite_st (fun t =>
-              if tid t =? a then Some tb else if tid t =? b then Some ta else None) (lists s)), OutP None)
-    | _, _ => (s, OutX)
-    end
+    (* exchange the places of the two nodes with everything below them: cut both
+       child lists, let the two childless nodes change places, graft each list
+       back under its own node *)
+    if (mem a (b :: ancs b (lists s)) || mem b (a :: ancs a (lists s))) && negb (a =? b) then (s, OutX)
+    else
+      match cut a (lists s) with
+      | Some (ta, s1) =>
+        match cut b s1 with
+        | Some (tb, s2) =>
+          let s3 := if a =? b then s2
+                    else exch_st a (tname ta) (tval ta) b (tname tb) (tval tb) s2 in
+          match graft a (tkids ta) s3 with
+          | Some s4 =>
+            match graft b (if a =? b then tkids ta else tkids tb) s4 with
+            | Some s5 => (with_lists s s5, OutP None)
+            | None => (s, OutX)
+            end
+          | None => (s, OutX)
+          end
+        | None => (s, OutX)
+        end
+      | None => (s, OutX)
+      end
   | ORelink x => if slive s x then (s, OutP None) else (s, OutX)
   | OTrav o fl x =>
     match focus x (lists s) with
